@@ -10,11 +10,11 @@ from concurrent.futures import ThreadPoolExecutor
 from vlib import tlaval
 from vlib.core import Infra, ndjson_text, read_ndjson
 
-ERRNOS = ['ENOENT', 'EACCES', 'ENOSPC', 'EIO']
+ERRNOS = ['ENOENT', 'EACCES', 'ENOSPC', 'EIO', 'EROFS']
 
 
 def S(op, ctr='', n=0):
-    return {'op': op, 'ctr': ctr, 'n': n, 'toolong': ctr.startswith('X')}
+    return {'op': op, 'ctr': ctr, 'n': n, 'toolong': ctr.startswith('X'), 'odd': ctr == 'N:empty'}
 
 
 # API scenarios of internal/counter.  setup: fresh = no telemetry directory at all, existing = a count file of
@@ -38,6 +38,16 @@ COUNTER_SCENARIOS = [
     # no fault needed: a name that is too long to be stored stays pending, then another counter makes the file grow
     dict(name='toolong', setup='full', mode='local',
          steps=[S('open'), S('add', 'Xbig', 2), S('add', 'o1', 1), S('add', 'Lnew', 1), S('add', 'Xbig', 1), S('add', 'Lnew', 1), S('add', 'c1', 1)]),
+    # counter names: NUL, invalid UTF-8, multi-byte, stack-like (newline, ditto marks), text that looks like metadata, one byte; Add(0)
+    dict(name='names', setup='existing', mode='local',
+         steps=[S('open'), S('add', 'N:nul', 1), S('add', 'N:utf8', 1), S('add', 'N:multibyte', 2), S('add', 'N:nl', 1), S('add', 'N:ditto', 1), S('add', 'N:meta', 1),
+                S('add', 'N:one', 1), S('add', 'o1', 0), S('read', 'o1'), S('read', 'N:nl'), S('read', 'N:multibyte'), S('add', 'N:utf8', 1), S('read', 'N:meta')]),
+    # the empty name (nothing is specified about it; whatever happens must be safe for the other counters)
+    dict(name='emptyname', setup='existing', mode='local', steps=[S('open'), S('add', 'o1', 1), S('add', 'N:empty', 1), S('add', 'o1', 1), S('read', 'o1'), S('add', 'c1', 1)]),
+    # the clock: a later day of the same week, the next week, and back again (a second and third rotation, re-opening an older file)
+    dict(name='time', setup='existing', mode='local',
+         steps=[S('open'), S('add', 'c1', 1), S('day2'), S('rotate'), S('add', 'c1', 1), S('read', 'c1'), S('week2'), S('rotate'), S('add', 'c1', 1),
+                S('week1'), S('rotate'), S('add', 'c1', 1), S('read', 'c1'), S('week2'), S('rotate'), S('add', 'o1', 2)]),
     # files deleted while in use
     dict(name='rmfile', setup='full', mode='local',
          steps=[S('open'), S('add', 'o1', 1), S('rmfile'), S('add', 'o1', 1), S('add', 'Lnew', 1), S('read', 'o1'), S('add', 'c1', 1), S('week2'), S('rotate'), S('add', 'o1', 1)]),
@@ -50,7 +60,19 @@ UPLOAD_SCENARIOS = [
     dict(name='run_on', mode='on 2020-01-01', junk=False, debug=True, steps=['run', 'run']),
     dict(name='run_on_junk', mode='on 2020-01-01', junk=True, debug=False, steps=['run']),
     dict(name='run_nomode', mode='', junk=True, debug=False, steps=['run']),
+    # the other modes: off; on with an opt-in date inside the data
+    dict(name='run_off', mode='off 2020-01-01', junk=False, debug=False, steps=['run']),
+    dict(name='run_on_asof', mode='on 2024-01-05', junk=False, debug=False, steps=['run']),
+    # nothing to do at all: no count files, no reports, no upload directory
+    dict(name='run_empty', mode='on 2020-01-01', junk=False, debug=False, empty=True, steps=['run', 'run']),
+    # the server refuses (4xx: the report is dropped) / fails (5xx: it is kept for the next run)
+    dict(name='run_on_400', mode='on 2020-01-01', junk=False, debug=False, reply=400, steps=['run', 'run']),
+    dict(name='run_on_503', mode='on 2020-01-01', junk=False, debug=False, reply=503, steps=['run', 'run']),
+    # odd but well-formed state: a count file without counters, too old / backwards weeks, unusable TimeEnd, only a stack counter,
+    # a stale lock, a report that is already there, a report from the future, debug is a file
+    dict(name='run_odd', mode='on 2020-01-01', junk=False, debug=False, odd=True, steps=['run', 'run']),
 ]
+PERSIST_SCENARIOS = {'open', 'firstadd', 'growth', 'growth2', 'rotation', 'read', 'time', 'run_local', 'run_on', 'run_odd', 'run_on_503'}
 PAIR_SCENARIOS = {'open', 'firstadd', 'growth', 'growth2', 'toolong', 'rotation', 'read', 'run_local', 'run_on'}
 LEAF = ('load32', 'cas32', 'entryAt', 'load', 'update', 'Load', 'Store', 'CompareAndSwap')
 
@@ -89,6 +111,7 @@ def hang_fn(label):
     return parts[0] if parts else '?'
 
 
+_PM = {}        # plan id -> (matcher kind, value) of persistent fault plans
 _HSEQ = [0]
 _HLOCK = threading.Lock()
 
@@ -157,7 +180,7 @@ def run(ctx):
     ctx.log(ctx.instrument('-files', 'internal/counter', 'internal/upload', 'internal/telemetry').strip())
     rng = random.Random(ctx.seed)
     rng2 = random.Random(ctx.seed * 7919 + 1)
-    pool = ThreadPoolExecutor(max_workers=8)
+    pool = ThreadPoolExecutor(max_workers=14)
     # the corruption product is enumerated by TLC while the scenarios are being recorded
     maxdmg = ctx.pick(3, 6)
     fut_corrupt = pool.submit(ctx.tlc, 'Corrupt', cfg_text='SPECIFICATION Spec\nINVARIANT Sane\nCHECK_DEADLOCK FALSE\nCONSTANTS\n MaxDamage = %d\n MaxDamageParse = 2\n' % maxdmg,
@@ -183,8 +206,10 @@ def mode_part(ctx, pool):
     vectors = sorted(((st['content'], st['ep'], st['exp']) for st in tlaval.read_dump(r.dump)), key=lambda v: json.dumps(v[:2], sort_keys=True))
     cscn, uscn = [], []
     for k, (c, ep, exp) in enumerate(vectors):
-        mc = dict(kind=c['kind'], base=c['base'], cut=c['cut'], g=c['g'])
-        if ep == 'counter':
+        mc = dict(file=c['file'], kind=c['kind'], base=c['base'], cut=c['cut'], g=c['g'])
+        if c['file'] == 'weekends':
+            cscn.append(dict(name='mode:%d' % k, setup='bare', mode='local', modeClass=mc, steps=[S('open'), S('add', 'c1', 2), S('add', 'o1', 1), S('read', 'c1')]))
+        elif ep == 'counter':
             cscn.append(dict(name='mode:%d' % k, setup='existing', mode='', modeClass=mc, steps=[S('open'), S('add', 'c1', 2), S('add', 'o1', 1), S('read', 'c1')]))
         else:
             uscn.append(dict(name='mode:%d' % k, mode='', modeClass=mc, junk=False, debug=False, steps=['run']))
@@ -227,10 +252,12 @@ def mode_part(ctx, pool):
             text = repr(('%s 2023-09-26' % c['base'])[:c['cut']])
         else:
             region, text = c['g'], 'garbage class ' + c['g']
+        if c['file'] == 'weekends':
+            text = 'week-end file: ' + text
         if verdict.startswith('mode-'):
             ndiv += 1
             if ndiv <= 5:
-                ctx.warn('MODEL-DIVERGENCE mode file %s, %s: %s (observed %s)' % (text, ep, verdict, json.dumps(o)))
+                ctx.warn('MODEL-DIVERGENCE %s file %s, %s: %s (observed %s)' % (c['file'], text, ep, verdict, json.dumps(o)))
             continue
         where = (hang_fn(st.get('where')) if verdict in ('hang', 'blocked') else st.get('where')) if st else '?'
         ctx.violation('C05:modefile:%s:%s:%s:%s' % (verdict, ep, where or '?', region),
@@ -254,7 +281,7 @@ def faults_replay(ctx, rng, pool):
     for s, fam in scns:
         r = recording[s['name']]
         steps = s['steps'] if fam == 'counter' else [S(o) for o in s['steps']]
-        lines.append(dict(scn=s['name'], family=fam, pairs=s['name'] in PAIR_SCENARIOS, steps=steps,
+        lines.append(dict(scn=s['name'], family=fam, pairs=s['name'] in PAIR_SCENARIOS, persist=s['name'] in PERSIST_SCENARIOS, steps=steps,
                           calls=[dict(i=c['i'], step=c['step'], op=c['op'], kind=c['kind'], pc=c['pc'], err=bool(c.get('err'))) for c in r['calls']]))
         index[s['name']] = len(lines)
     ctx.cov['recorded_calls'] = {l['scn']: len(l['calls']) for l in lines}
@@ -274,29 +301,52 @@ def faults_replay(ctx, rng, pool):
         raise Infra('Faults.tla: spec-level sanity failed: %s %s\n%s' % (r.error, r.error_name, r.out[-3000:]))
     plans = {}
     for st in tlaval.read_dump(r.dump):
-        plans.setdefault(lines[st['scn'] - 1]['scn'], []).append((tuple(tuple(f) for f in st['fplan']), st['pred']))
+        pm = st['pm']
+        plans.setdefault(lines[st['scn'] - 1]['scn'], []).append((tuple(tuple(f) for f in st['fplan']), st['pred'], None if pm['m'] == '-' else (pm['m'], pm['v'])))
     ctx.cov['plans_enumerated'] = {k: len(v) for k, v in plans.items()}
     ctx.cov['pair_errnos'] = ['%s+%s' % p for p in pair_errnos]
 
     # ---- which plans are replayed ---------------------------------------------------
     def select(name, fam):
-        ps = sorted(plans.get(name, []))
-        single = [p for p in ps if len(p[0]) <= 1]
-        pair = [p for p in ps if len(p[0]) == 2]
-        if fam == 'counter' or ctx.thorough():
+        ps = sorted(plans.get(name, []), key=lambda p: (p[0], p[2] or ()))
+        persistent = [p for p in ps if p[2]]
+        single = [p for p in ps if not p[2] and len(p[0]) <= 1]
+        pair = [p for p in ps if not p[2] and len(p[0]) == 2]
+        if fam == 'counter' and not ctx.thorough() and name not in ('open', 'firstadd', 'growth', 'rotation', 'read'):
+            keep = {}
+            for p in single:
+                if p[0]:
+                    keep.setdefault(p[0][0][0], []).append(p)
+            single = [p for p in single if not p[0]] + [q for _, v in sorted(keep.items()) for q in rng.sample(v, 2)]
+        if fam == 'upload' and not ctx.thorough() and name != 'run_local':
+            # a mode-on run costs ~50 ms (config download): one errno per call in the quick tier (two for run_on)
+            keep = {}
+            for p in single:
+                if p[0]:
+                    keep.setdefault(p[0][0][0], []).append(p)
+            single = [p for p in single if not p[0]] + [q for _, v in sorted(keep.items()) for q in rng.sample(v, 2 if name == 'run_on' else 1)]
+        if ctx.thorough():
             cap_pairs = len(pair) if fam == 'counter' else 2600
+        elif fam == 'counter':
+            cap_pairs = 220
         else:
             # the config download makes a mode-on run cost ~50 ms
-            cap_pairs = {'run_local': 500, 'run_on': 250}.get(name, 0)
+            cap_pairs = {'run_local': 300, 'run_on': 150}.get(name, 0)
         if len(pair) > cap_pairs:
             pair = rng.sample(pair, cap_pairs)
-        return single + pair
+        return single + pair + persistent
 
     cplans, uplans, meta = [], [], {}
+    _PM.clear()
     for s, fam in scns:
-        for (pl, pred) in select(s['name'], fam):
+        for (pl, pred, pm) in select(s['name'], fam):
             pid = len(meta) + 1
             meta[pid] = (s['name'], fam, pl, pred)
+            if pm:
+                errno = {'kind': 'EIO', 'pc': 'EACCES', 'writes': 'EROFS', 'all': 'EIO'}[pm[0]]
+                (cplans if fam == 'counter' else uplans).append(dict(id=pid, scn=s['name'], faults=[], match=dict(m=pm[0], v=pm[1], errno=errno)))
+                _PM[pid] = pm
+                continue
             (cplans if fam == 'counter' else uplans).append(dict(id=pid, scn=s['name'], faults=[dict(idx=i, errno=e) for (i, e) in pl]))
     ctx.log('fault plans to replay: counter %d, upload %d' % (len(cplans), len(uplans)))
     fc = sharded(ctx, pool, './internal/counter', 'TestVerifC05Faults', {'scenarios': COUNTER_SCENARIOS, 'budget': 20000}, 'plans', cplans, 2)
@@ -353,6 +403,17 @@ def faults_decide(ctx, cases, meta, scns, index, rec_text, mc):
             if not b:
                 raise Infra('FaultsTrace accepted a trace in which another counter changed')
             ctx.cov['binding_demo'] = 'fault-free rotation trace with step 3 altered to "another counter changed" is rejected: %s' % [list(x) for x in b]
+    # the empty counter name: nothing is specified, so what the library makes of it is only noted
+    for pid in sorted(cases):
+        name, fam, pl, pred = meta[pid]
+        if name == 'emptyname' and not pl and pid not in _PM:
+            st = cases[pid]['steps']
+            later = [x for x in st[3:] if x['op'] == 'read' and (x['rerr'] or x['rv'] != x['pv'])]
+            if later or (st[2]['dP'] == 0 and st[2]['dE'] == 0):
+                ctx.cov['divergences'] += 1
+                ctx.warn('MODEL-DIVERGENCE (documentation silent) Add on a counter with an EMPTY name returns, but the record it writes has name length 0: '
+                         'the amount is neither in memory nor readable (dP=%s dE=%s) and afterwards counter.Read of another counter %s' % (
+                             st[2]['dP'], st[2]['dE'], 'fails: the library cannot parse its own file any more (belongs to C10 / C06)' if later else 'still works'))
     okcases = set(ids) - {b[0] for b in bad} - set(diverged)
     ctx.cov['traces_validated_against_impl'] += len(okcases)
     ctx.cov['divergences'] += len(diverged)
@@ -365,16 +426,18 @@ def faults_decide(ctx, cases, meta, scns, index, rec_text, mc):
         st = c['steps'][k - 1]
         fired = [f for f in c['fired'] if f['step'] <= k]
         fdesc = '+'.join(sorted({'%s@%s' % (f['kind'], pcclass(f['pc'])) for f in fired})) or 'fault-free'
+        if pid in _PM:
+            fdesc = 'persistent:%s=%s' % (_PM[pid][0], pcclass(_PM[pid][1]))
         sig = 'C05:fault:%s:%s:%s' % (rule, st['op'], fdesc)
         if rule in ('hang', 'blocked'):
             sig = 'C05:fault:%s:%s:%s:%s' % (rule, hang_fn(st.get('where')), st['op'], fdesc)
         elif rule in ('panic', 'memfault'):
             sig = 'C05:fault:%s:%s:%s:%s' % (rule, st.get('where') or '?', st['op'], fdesc)
         scn = [s for s, _ in scns if s['name'] == name][0]
-        ctx.violation(sig, {'scenario': scn, 'plan': [dict(idx=i, errno=e) for (i, e) in pl], 'fired': c['fired'], 'step': k, 'rule': rule,
+        ctx.violation(sig, {'scenario': scn, 'plan': [dict(idx=i, errno=e) for (i, e) in pl], 'persistent': _PM.get(pid), 'fired': c['fired'][:40], 'step': k, 'rule': rule,
                             'observed': c['steps'], 'predicted': pred},
                       'scenario %s, plan %s (fired: %s): step %d (%s %s) breaks "%s": %s' % (
-                          name, list(pl) or 'fault-free', ', '.join('%s %s@%s' % (f['errno'], f['kind'], f['pc']) for f in c['fired']) or '-', k, st['op'],
+                          name, ('every call matching %s=%s fails' % _PM[pid]) if pid in _PM else (list(pl) or 'fault-free'), ', '.join('%s %s@%s' % (f['errno'], f['kind'], f['pc']) for f in c['fired'][:6]) or '-', k, st['op'],
                           st.get('ctr', ''), rule, json.dumps({x: st[x] for x in st if x not in ('where',)})[:700]))
     some = [pid for pid in sorted(cases) if len(meta[pid][2]) == 2 and meta[pid][1] == 'counter']
     if some:
@@ -418,14 +481,19 @@ def corrupt_replay(ctx, rng, r, pool):
         lo_fast = [v for v in lo if not cyclic(v[0], v[1])]
         lo_slow = [v for v in lo if cyclic(v[0], v[1])]
         lo_slow = rng.sample(lo_slow, min(len(lo_slow), 40))
-        sel = lo_fast + lo_slow + rng.sample(fast, min(len(fast), 5000)) + rng.sample(slow, min(len(slow), 20))
+        # whole-file reads by the uploader cost a process-level run each: all files with at most one damaged dimension, all cyclic
+        # ones, and a sample of the rest
+        up_keep = [v for v in lo_fast if v[1] != 'upload' or damage(v[0]) <= 1 or v[0]['nextC'] == 'self' or v[0]['nextE'] in ('self', 'cycle2')]
+        up_rest = [v for v in lo_fast if not (v[1] != 'upload' or damage(v[0]) <= 1 or v[0]['nextC'] == 'self' or v[0]['nextE'] in ('self', 'cycle2'))]
+        lo_fast = up_keep + rng.sample(up_rest, min(len(up_rest), 250))
+        sel = lo_fast + lo_slow + rng.sample(fast, min(len(fast), 4000)) + rng.sample(slow, min(len(slow), 20))
     cases = []
     for (f, op, exp) in sel:
         c = dict(f)
         c.update(id=len(cases) + 1, op=op, rand=0)
         cases.append(c)
     nenum = len(cases)
-    for k in range(ctx.pick(3000, 30000)):
+    for k in range(ctx.pick(2000, 30000)):
         c = dict(UNDAMAGED)
         c.update(id=len(cases) + 1, op=['addE', 'addN', 'addM', 'read', 'addE', 'addN', 'addM', 'upload'][k % 8], rand=rng.randrange(1, 1 << 40))
         cases.append(c)
@@ -473,7 +541,7 @@ def corrupt_decide(ctx, cases, res, nenum):
     for c in cases:
         o = res[c['id']]
         lines.append(dict(free=bool(c['rand']), file={d: c[d] for d in DIMS}, op=c['op'],
-                          o=dict(open=o['open'], ret=o['ret'], mode=o['mode'], others=o['others'], untouched=o['untouched'], dbl=o['dbl'])))
+                          o=dict(open=o['open'], ret=o['ret'], mode=o['mode'], others=o['others'], untouched=o['untouched'], dbl=o['dbl'], dec=bool(o.get('dec')))))
     bad = []
     chunk = 40000
     jobs = [(('CorruptTrace',), dict(files={'c05corrupt.ndjson': ndjson_text(lines[i:i + chunk])}, workers=1, label='CorruptTrace[%d]' % (i // chunk), count=False, timeout=2400))
